@@ -246,7 +246,8 @@ def r06h(F):
 	for fn in (OTX + 'update_claims_view_from_matched_txn', OTX + 'blocks_disconnected'):
 		fu = F.func(fn)
 		ex = Expr(fu)
-		cand = {l for l, nm in fu.vars.items() if nm == 'bump_candidates'}
+		# the per-block candidate map: a local HashMap whose values are PackageTemplates
+		cand = {l for l in range(len(fu.locals)) if 'HashMap<' in (fu.locals[l].get('ty') or '') and 'PackageTemplate' in (fu.locals[l].get('ty') or '') and not (fu.locals[l].get('ty') or '').startswith('&')}
 		# name-free fallback: the map local that receives (claim_id, request.clone()) inserts
 		ins = []
 		other = []
